@@ -163,6 +163,37 @@ def line_recorder(pkg_dir, seen, counter=None):
     return glob
 
 
+class _Worker:
+    """One caller thread of the simulated process.  The lanes of every CONC operation of an
+    interpreter are served by the same worker threads (lane i by worker i), as the requests of a
+    server are served by its pool: what a call leaves behind per thread - a threading.local, an
+    entry keyed by get_ident() - is met by the next call on that worker, and which thread
+    identities recur is decided by the plan, not by the allocator of thread ids."""
+
+    def __init__(self, idx):
+        self.job = None
+        self.wake = _thread.allocate_lock()
+        self.wake.acquire()
+        self.thread = threading.Thread(target=self._loop, daemon=True, name="lane-%d" % idx)
+        self.thread.start()
+
+    def _loop(self):
+        while True:
+            self.wake.acquire()
+            job, self.job = self.job, None
+            if job is not None:
+                job()
+
+
+POOL = []
+
+
+def _worker(idx):
+    while len(POOL) <= idx:
+        POOL.append(_Worker(len(POOL)))
+    return POOL[idx]
+
+
 class Scheduler:
     def __init__(self, pkg_dir, switches, first=0, wall=30.0, transparent=(), interrupt=None,
                  seen=None):
@@ -359,6 +390,7 @@ class Scheduler:
             else:
                 self.current = None
                 self.main.release()
+            self.finished[idx].release()
 
     def run(self, bodies):
         """Run the lane bodies to completion under the planned schedule.  Returns False when the
@@ -371,12 +403,17 @@ class Scheduler:
             lock.acquire()
             self.batons.append(lock)
         self.done = [False] * n
-        threads = [threading.Thread(target=self._lane, args=(i, body), daemon=True,
-                                    name="lane-%d" % i) for i, body in enumerate(bodies)]
+        self.finished = []
+        for _ in range(n):
+            lock = _thread.allocate_lock()
+            lock.acquire()
+            self.finished.append(lock)
         ACTIVE[0] = self
         try:
-            for t in threads:
-                t.start()
+            for i, body in enumerate(bodies):
+                worker = _worker(i)
+                worker.job = (lambda i=i, body=body: self._lane(i, body))
+                worker.wake.release()
             self.current = self.first % n
             self.batons[self.current].release()
             if not self.main.acquire(True, self.wall * 2):
@@ -388,11 +425,18 @@ class Scheduler:
                         lock.release()
                     except RuntimeError:
                         pass
-                for t in threads:
-                    t.join(timeout=self.wall)
+                for lock in self.finished:
+                    lock.acquire(True, self.wall)
+                # (a worker may still be stuck in its lane: the pool is abandoned, the next
+                # schedule - if the caller runs one at all - gets fresh worker threads)
+                del POOL[:]
                 return False
-            for t in threads:
-                t.join(timeout=self.wall)
+            for lock in self.finished:
+                if not lock.acquire(True, self.wall):
+                    self.stalled = True
+            if self.stalled:
+                del POOL[:]
+                return False
             return True
         finally:
             ACTIVE[0] = None
